@@ -26,7 +26,23 @@ CFG = {
             "predicate `supported` (mismatch = malformed); generated = seeded random schema ASTs inside the supported "
             "fragment (0-2 definitions, possibly recursive); injected = the same with one keyword the converter panics "
             "on, drops or alters (26 injections x N); param = scalar schemas through Query<T> (schema2struct, "
-            "schema_extract_description, Static path). Non-trivial: the schema has at least two keywords or nodes, or "
+            "schema_extract_description, Static path); large = a deterministic large-scope slice (harness/src/bin/c08/large.rs), "
+            "each case converted by the real j2oas_* through the dynamic-schema device and judged by the same model and "
+            "spec with instances on both sides of every limit: for n in 15/16/17, 31/32/33, 63/64/65, 127/128/129, "
+            "255/256/257 (thorough also 511/512/513, 1023/1024/1025): nesting depth n (objects in objects, arrays of "
+            "arrays, allOf / anyOf / oneOf / not chains, allOf+nullable at every level = Option<Option<..>>), n properties "
+            "all required with min/maxProperties n, n string / integer enum values, n members of one oneOf / anyOf / "
+            "allOf, a chain of n references = n definitions in one document (plain, allOf links, object links, and a "
+            "recursive type with a back reference reached through the chain), property name / enum string / "
+            "description+title+default+x- value / pattern / reference name of length n, min=maxLength and "
+            "min=maxItems n (code points); integer and number bounds (minimum, maximum, exclusive*, multipleOf) at "
+            "i32::MIN, i32::MAX, u32::MAX, u8/u16::MAX, +-2^53, i64::MIN, i64::MAX, u64::MAX each -1/0/+1 with instances "
+            "-2..+2 around; min/maxLength, min/maxItems, min/maxProperties at 2^31-1, 2^31, 2^31+1, u32::MAX-1, u32::MAX "
+            "(schemars holds these as u32: larger values are not schemas it can represent). Caps: the three "
+            "reference-chain dimensions stop at 513 (the Coq evaluation follows a chain by n association-list lookups "
+            "per instance: ~100 s at 1025); nesting depth is evaluated up to 1025 without overflowing coqc. The JSON "
+            "line of a large case carries the recipe (dimension, n), tags `large:<dimension>:<n>`; the expensive ones are "
+            "spread over the 16 evaluation shards. Non-trivial: the schema has at least two keywords or nodes, or "
             "is an injected/derived case; distinct by case content.",
     "trusted_base": COMMON_TB + [
         "schemars 0.8 (library): schema derivation for the Rust types, SchemaGenerator::subschema_for / "
